@@ -147,7 +147,8 @@ func mkCase(mask int, udp bool, kind string, reqs []request) caseSpec {
 // corpus: minimal cases that must always run first
 func corpusCases() []caseSpec {
 	return []caseSpec{
-		// known finding: RECORD over UDP whose first UDP write fails (client_port=0-1)
+		// regression (fixed by /repo ba05e77): RECORD over UDP whose first UDP write fails (client_port=0-1)
+		// must be answered 400 and leave the session in PreRecord
 		mkCase(255, true, "corpus record-start-failure", []request{announce(0, 1), setupUDP(0, 0, 2, 0).R(), rq(0, mRecord).R()}),
 		// the standard play and record conversations
 		mkCase(255, true, "corpus play-udp", []request{rq(0, mOptions), rq(0, mDescribe), setupUDP(0, 0, 0, 41000), setupUDP(0, 1, 0, 41002).R(), rq(0, mPlay).R(), rq(0, mGetParam).R(), rq(0, mPause).R(), rq(0, mPlay).R(), rq(0, mTeardown).R()}),
